@@ -900,6 +900,14 @@ func genC21(r *simrt.Rand, tier string) *simrt.Plan {
 	nodes := 1 + r.Intn(4)
 	replicas := 1 + r.Intn(4)
 	g, ops := rzBase(r, nodes, replicas)
+	if r.Bool(0.5) {
+		// a second index with data of its own: the plan has to cover every index
+		ops = append(ops, simrt.Op{K: "mkindex", S: []string{"j"}, I: []int64{0, g.node()}},
+			simrt.Op{K: "mkfield", S: []string{"j", "s", "set", ""}, I: []int64{0, 0, 0, 50000, 0, g.node()}})
+		for k := 0; k < 2+r.Intn(6); k++ {
+			ops = append(ops, simrt.Op{K: "set", S: []string{"j", "s"}, I: []int64{g.row(), g.col(), g.node(), 0}})
+		}
+	}
 	steps := 1 + r.Intn(3)
 	for j := 0; j < steps; j++ {
 		ops = append(ops, simrt.Op{K: "snapowners"})
